@@ -1,6 +1,10 @@
 (* C08 property theorems. Only statements closed by [exact lemma] + Print Assumptions. *)
-From V Require Import Common.Base C08.SortPerm C08.Comparators C08.CmpTheory C08.ComparatorProofs.
+From Coq Require Import String.
+From V Require Import Common.Base C08.SortPerm C08.Comparators C08.CmpTheory C08.ComparatorProofs
+  C08.Dfs C08.DfsProofs C08.Serializer C08.SerializerProofs gen.MapSitesGen C08.MapSites C08.MapSitesProofs.
 From Coq Require Import Permutation Sorted.
+
+(* ================= order-insensitivity of sorting and folding ================= *)
 
 (* Whatever algorithm sorts (sort.Sort is unstable): if Less is a strict weak
    order and no two distinct elements are tied, the result does not depend on
@@ -11,3 +15,204 @@ Theorem sort_perm_invariant :
     Permutation l s -> SortedBy ltb s -> Permutation l' s' -> SortedBy ltb s' -> s = s'.
 Proof. exact (@sort_perm_invariant_gen). Qed.
 Print Assumptions sort_perm_invariant.
+
+(* the same for any two sorting functions (e.g. two versions of pdqsort) *)
+Theorem sort_fun_invariant :
+  forall (A : Type) (ltb : A -> A -> bool), StrictWeak ltb ->
+  forall sort1 sort2, IsSort ltb sort1 -> IsSort ltb sort2 ->
+  forall l l', Permutation l l' -> TotalOn ltb l -> sort1 l = sort2 l'.
+Proof. exact (@sort_fun_perm_invariant). Qed.
+Print Assumptions sort_fun_invariant.
+
+(* the model sort used by the correspondence run is that canonical result *)
+Theorem real_sort_equals_model_sort :
+  forall (A : Type) (ltb : A -> A -> bool), StrictWeak ltb ->
+  forall l s, TotalOn ltb l -> Permutation l s -> SortedBy ltb s -> s = isort ltb l.
+Proof. exact (@any_sort_eq_isort). Qed.
+Print Assumptions real_sort_equals_model_sort.
+
+(* comparator that reads a key only (sort.Stable of messages): the KEY sequence
+   of the result is canonical when distinct keys are never tied *)
+Theorem sort_keys_perm_invariant :
+  forall (A K : Type) (key : A -> K) (kltb : K -> K -> bool), StrictWeak kltb ->
+  forall l l' s s', Permutation l l' -> TotalOn kltb (map key l) ->
+    Permutation l s -> SortedBy (on_key key kltb) s -> Permutation l' s' -> SortedBy (on_key key kltb) s' ->
+    map key s = map key s'.
+Proof. exact (@sort_keys_invariant). Qed.
+Print Assumptions sort_keys_perm_invariant.
+
+(* accumulating with a commutative step does not depend on the iteration order *)
+Theorem fold_comm_invariant :
+  forall (A B : Type) (f : B -> A -> B), (forall b x y, f (f b x) y = f (f b y) x) ->
+  forall l l', Permutation l l' -> forall b, fold_left f l b = fold_left f l' b.
+Proof. exact (@fold_comm_invariant_gen). Qed.
+Print Assumptions fold_comm_invariant.
+
+(* ... also when commutativity only holds up to an observation (lists used as sets) *)
+Theorem fold_comm_invariant_up_to :
+  forall (A B : Type) (f : B -> A -> B) (R : B -> B -> Prop),
+  (forall b, R b b) -> (forall a b c, R a b -> R b c -> R a c) ->
+  (forall b b' x, R b b' -> R (f b x) (f b' x)) -> (forall b x y, R (f (f b x) y) (f (f b y) x)) ->
+  forall l l', Permutation l l' -> forall b, R (fold_left f l b) (fold_left f l' b).
+Proof. exact (@fold_comm_invariant_upto). Qed.
+Print Assumptions fold_comm_invariant_up_to.
+
+(* "for k, v := range m { out[k] = v' }": the resulting map does not depend on the order *)
+Theorem map_writes_order_invariant :
+  forall (V : Type) (l l' : list (Z * V)), NoDup (map fst l) -> Permutation l l' ->
+  forall m k, fold_left upd l m k = fold_left upd l' m k.
+Proof. exact (@map_writes_invariant). Qed.
+Print Assumptions map_writes_order_invariant.
+
+(* ================= the comparators ================= *)
+(* each Less is a strict weak order, and two elements are tied only if their
+   sort keys coincide; then totality on the domain that is actually sorted *)
+
+Theorem stableRefArray_order : StrictWeak stableRef_less /\ TiedKeys stableRef_less stableRef_key.
+Proof. exact stableRef_order. Qed.
+Print Assumptions stableRefArray_order.
+Theorem stableRefArray_total_on_domain :
+  forall (stable_of : Z -> Z) l, (forall x y, stable_of x = stable_of y -> x = y) ->
+  (forall a, In a l -> sr_stable a = stable_of (r_src (sr_ref a))) -> TotalOn stableRef_less l.
+Proof. exact stableRef_total_on_domain. Qed.
+Print Assumptions stableRefArray_total_on_domain.
+
+Theorem chunkOrderArray_order : StrictWeak chunkOrder_less /\ TiedKeys chunkOrder_less chunkOrder_key.
+Proof. exact chunkOrder_order. Qed.
+Print Assumptions chunkOrderArray_order.
+Theorem chunkOrderArray_total_on_domain :
+  forall (stable_of dist_of : Z -> Z) l, (forall x y, stable_of x = stable_of y -> x = y) ->
+  (forall a, In a l -> co_tie a = stable_of (co_src a) /\ co_dist a = dist_of (co_src a)) ->
+  TotalOn chunkOrder_less l.
+Proof. exact chunkOrder_total_on_domain. Qed.
+Print Assumptions chunkOrderArray_total_on_domain.
+
+Theorem crossChunkImportArray_order :
+  StrictWeak crossChunkImport_less /\ forall l, TotalOn crossChunkImport_less l.
+Proof. exact (conj (proj1 crossChunkImport_order) crossChunkImport_total). Qed.
+Print Assumptions crossChunkImportArray_order.
+
+Theorem crossChunkImportItemArray_order : StrictWeak ccItem_less /\ TiedKeys ccItem_less cci_alias.
+Proof. exact ccItem_order. Qed.
+Print Assumptions crossChunkImportItemArray_order.
+Theorem crossChunkImportItemArray_total_on_domain :
+  forall l, (forall a b, In a l -> In b l -> cci_alias a = cci_alias b -> a = b) -> TotalOn ccItem_less l.
+Proof. exact ccItem_total_on_domain. Qed.
+Print Assumptions crossChunkImportItemArray_total_on_domain.
+
+Theorem StableSymbolCountArray_order : StrictWeak symCount_less /\ TiedKeys symCount_less symCount_key.
+Proof. exact symCount_order. Qed.
+Print Assumptions StableSymbolCountArray_order.
+Theorem StableSymbolCountArray_total_on_domain :
+  forall (stable_of : Z -> Z) l, (forall x y, stable_of x = stable_of y -> x = y) ->
+  (forall a, In a l -> sc_stable a = stable_of (r_src (sc_ref a))) -> TotalOn symCount_less l.
+Proof. exact symCount_total_on_domain. Qed.
+Print Assumptions StableSymbolCountArray_total_on_domain.
+
+Theorem slotAndCountArray_order : StrictWeak slotCount_less /\ forall l, TotalOn slotCount_less l.
+Proof. exact (conj (proj1 slotCount_order) slotCount_total). Qed.
+Print Assumptions slotAndCountArray_order.
+
+Theorem charAndCountArray_order : StrictWeak charCount_less /\ forall l, TotalOn charCount_less l.
+Proof. exact (conj (proj1 charCount_order) charCount_total). Qed.
+Print Assumptions charAndCountArray_order.
+
+Theorem scopeMemberArray_order : StrictWeak scopeMember_less /\ forall l, TotalOn scopeMember_less l.
+Proof. exact (conj (proj1 scopeMember_order) scopeMember_total). Qed.
+Print Assumptions scopeMemberArray_order.
+
+Theorem metafileArray_order : StrictWeak metafile_less /\ forall l, TotalOn metafile_less l.
+Proof. exact (conj (proj1 metafile_order) metafile_total). Qed.
+Print Assumptions metafileArray_order.
+
+(* expansion keys: a strict weak order, tied exactly when (base length, has-star,
+   length) coincide; NOT total on distinct keys -- harmless: sort.Stable over the
+   order of the keys in package.json *)
+Theorem expansionKeysArray_order : StrictWeak expansionKeys_less /\ TiedKeys expansionKeys_less ek_key.
+Proof. exact expansionKeys_order. Qed.
+Print Assumptions expansionKeysArray_order.
+Theorem expansionKeysArray_total_refuted :
+  exists a b, a <> b /\ expansionKeys_less a b = false /\ expansionKeys_less b a = false.
+Proof. exact expansionKeys_total_refuted_witness. Qed.
+Print Assumptions expansionKeysArray_total_refuted.
+
+(* diagnostics: full statement "total on distinct messages" is FALSE of the code *)
+Theorem SortableMsgs_order : StrictWeak msg_less /\ TiedKeys msg_less msg_key.
+Proof. exact msg_order. Qed.
+Print Assumptions SortableMsgs_order.
+Theorem SortableMsgs_total_partial :
+  forall l, (forall a b, In a l -> In b l -> msg_key a = msg_key b -> a = b) -> TotalOn msg_less l.
+Proof. exact msg_total_on_located. Qed.
+Print Assumptions SortableMsgs_total_partial.
+Theorem SortableMsgs_total_refuted :
+  exists a b, a <> b /\ msg_less a b = false /\ msg_less b a = false.
+Proof. exact msg_total_refuted_witness. Qed.
+Print Assumptions SortableMsgs_total_refuted.
+Theorem SortableMsgs_locationless_all_tied :
+  forall a b, m_loc a = None -> m_loc b = None -> msg_less a b = false /\ msg_less b a = false.
+Proof. exact msg_locationless_tied. Qed.
+Print Assumptions SortableMsgs_locationless_all_tied.
+
+(* ================= stable source indices ================= *)
+
+(* the reachable-file order is equivariant under any injective renaming of the
+   arrival-order source indices (g' is the same graph with renamed indices) *)
+Theorem dfs_equivariant :
+  forall (rho : Z -> Z), (forall x y, rho x = rho y -> x = y) ->
+  forall g g', (forall n, g' (rho n) = map rho (g n)) ->
+  forall fuel roots, reach_order fuel g' (map rho roots) = option_map (map rho) (reach_order fuel g roots).
+Proof. exact reach_order_equiv. Qed.
+Print Assumptions dfs_equivariant.
+
+(* hence the stable index of a file is independent of its arrival-order index *)
+Theorem stable_index_invariant :
+  forall (rho : Z -> Z), (forall x y, rho x = rho y -> x = y) ->
+  forall g g', (forall n, g' (rho n) = map rho (g n)) ->
+  forall fuel roots o o' n, reach_order fuel g roots = Some o -> reach_order fuel g' (map rho roots) = Some o' ->
+    index_of (rho n) o' = index_of n o.
+Proof. exact stable_index_equiv. Qed.
+Print Assumptions stable_index_invariant.
+
+(* ================= helpers.Serializer ================= *)
+
+(* every complete run, whatever the interleaving and the number of workers,
+   executes the critical sections exactly once each, in index order *)
+Theorem serializer_order :
+  forall n tr s, srun n sinit tr = Some s -> all_left n s = true -> slog s = seq 0 n.
+Proof. exact serializer_order_all. Qed.
+Print Assumptions serializer_order.
+
+(* at every moment of every run the executed critical sections are 0,1,..,k-1 *)
+Theorem serializer_prefix_order :
+  forall n tr s, srun n sinit tr = Some s -> exists k, (k <= n)%nat /\ slog s = seq 0 k.
+Proof. exact serializer_prefix. Qed.
+Print Assumptions serializer_prefix_order.
+
+Theorem serializer_mutual_exclusion :
+  forall n tr s i j, srun n sinit tr = Some s -> inside (pc s i) -> inside (pc s j) -> i = j.
+Proof. exact serializer_mutex_all. Qed.
+Print Assumptions serializer_mutual_exclusion.
+
+Theorem serializer_no_deadlock :
+  forall n tr s, srun n sinit tr = Some s -> all_left n s = false -> exists e s', sstep n s e = Some s'.
+Proof. exact serializer_progress_all. Qed.
+Print Assumptions serializer_no_deadlock.
+
+(* ================= inventory of map iterations (regenerated by T4) ================= *)
+
+(* every `for range <map>` of the scanned packages is classified, and the
+   translator resolved the operand type of every range statement *)
+Theorem all_map_sites_classified :
+  (forall s, In s map_sites -> exists c, class_of s = Some c) /\ unresolved_range_sites = nil.
+Proof. exact (conj classified_forall no_unresolved). Qed.
+Print Assumptions all_map_sites_classified.
+
+(* full statement "every site is order-insensitive" is FALSE of the code: *)
+Theorem all_map_sites_ordered_refuted : exists s, In s map_sites /\ site_ordered s = false.
+Proof. exact unordered_witness. Qed.
+Print Assumptions all_map_sites_ordered_refuted.
+(* every site outside the seven option validators of finding C08-G2 is *)
+Theorem all_map_sites_ordered_partial :
+  forall s, In s map_sites -> in_known s = false -> site_ordered s = true.
+Proof. exact ordered_except_known. Qed.
+Print Assumptions all_map_sites_ordered_partial.
